@@ -125,7 +125,7 @@ def configs(tier):
 def check(run):
     c = ctx(run)
     std(run)
-    keys = ["meth:compose.Compose.__init__:0", "meth:compose.Compose.__init__:1"] + (["meth:compose.Compose.__init__:2"] if run.tier == "thorough" else [])
+    keys = ["meth:compose.Compose.__init__:any", "meth:compose.Compose.__init__:0", "meth:compose.Compose.__init__:1"] + (["meth:compose.Compose.__init__:2"] if run.tier == "thorough" else [])
     keys += ["prop:compose.Compose.%s" % a for a in ("info", "images", "rpms", "modules")]
     for k in keys:
         verify.verify(run, c.E, c.contracts[k], crosscheck=False)
@@ -165,6 +165,7 @@ def check(run):
         if bad:
             run.violation("bounded:%s" % con.name, bad[0][1], con.describe(bad[0][0]), con.replay_script(bad[0][0], bad[0][1]))
     run.assume("A4: os.path.join/exists/listdir as documented; listdir order arbitrary")
-    run.note("Compose.__init__ is proved for local absolute paths with a listing of 0-1 (quick) / 2 (thorough) entries: bounded in the NUMBER of "
-             "directory entries; URL access is outside the contract")
+    run.note("Compose.__init__ is proved for local absolute paths with a directory listing of ARBITRARY length (witness rule for the search "
+             "loop, pyvc/anycoll.py) and, as a cross-check of that rule, with listings of 0-1 (quick) / 2 (thorough) concrete entries; URL "
+             "access is outside the contract")
     run.note("only ValueError from load is wrapped into RuntimeError; KeyError/TypeError from a structurally wrong but decodable file propagate (INFO)")
